@@ -1,4 +1,5 @@
 PROP = dict(
+        tie_coq=["Properties/TieC18.v"],
         coq="Properties/C18.v",
         # directed search after a broken correspondence / proof: two more seeds at twice the quick budget
         search_rounds=2, search_env=dict(VERIF_CASES=3000),
